@@ -346,6 +346,8 @@ def build(spec):
     vol_kw = {}
     if spec.get("vol_material") is not None:
         vol_kw["material"] = fdtdx.Material(**spec["vol_material"])
+    if spec.get("vol_material_obj") is not None:
+        vol_kw["material"] = spec["vol_material_obj"]
     global _EDGES
     _EDGES = None
     if isinstance(grid, fdtdx.RectilinearGrid) and not grid.is_uniform:
